@@ -420,6 +420,14 @@ func (x *Exec) enterBlock(p *Path, b *ssa.BasicBlock, from *ssa.BasicBlock, k *C
 		ctx.frame = fr
 		ctx.preferFrame = true
 		ctx.iterCell = iterCell
+		if fr.loopIter == nil {
+			fr.loopIter = map[*ssa.BasicBlock]string{}
+		}
+		if backEdge {
+			ctx.loopIter = "(+ " + fr.loopIter[b] + " 1)"
+		} else {
+			ctx.loopIter = "0"
+		}
 		if !backEdge {
 			// entry: check invariants, havoc, assume invariants
 			for _, c := range lc.Invariants {
@@ -436,6 +444,10 @@ func (x *Exec) enterBlock(p *Path, b *ssa.BasicBlock, from *ssa.BasicBlock, k *C
 			ctx.frame = fr
 			ctx.preferFrame = true
 			ctx.iterCell = iterCell
+			li := x.e.fresh("loopiter", "Int")
+			p.assume("(>= " + li + " 0)")
+			fr.loopIter[b] = li
+			ctx.loopIter = li
 			for _, c := range lc.Invariants {
 				s, err := ctx.EvalBool(c.E)
 				if err == nil {
